@@ -1,6 +1,6 @@
 (** C08 — the greedy proposal loop. *)
 From V.Lib Require Import Base.
-From V.C08 Require Import Sql Model Spec ProofsSql ProofsSel ProofsProp.
+From V.C08 Require Import Sql Model ModelT ModelP Spec ProofsSql ProofsSel ProofsProp ProofsT.
 From V.Gen Require Import C08SqlPred.
 From Coq Require Import ZifyBool Permutation FinFun.
 Local Open Scope Z_scope.
@@ -81,8 +81,12 @@ Proof.
   destruct lf; cbn in *; [reflexivity | exact Hl].
 Qed.
 
+Ltac dif H := match type of H with context [if ?c then _ else _] => destruct c eqn:? end.
+
 Section Greedy.
-  Variable change : Z -> list note_row -> change_result.
+  Variable change : Z -> list note_row -> list utxo_row -> change_result.
+  Variable ton : bool.
+  Variable tgather : Z -> list utxo_row.
   Variable db : list note_row.
   Variable e : env.
   Variables acct pay : Z.
@@ -96,6 +100,8 @@ Section Greedy.
   Hypothesis Hn : NoDup (rrefs db).
   Hypothesis Ht : 1 <= p_trusted pol.
   Hypothesis Hu : p_trusted pol <= p_untrusted pol.
+  (** the gather never returns an output twice *)
+  Hypothesis Htn : forall t, NoDup (map u_id (tgather t)).
 
   (** A row the proposal may spend: in the wallet, in a permitted pool, spendable per Spec at the
       anchor the data source selects at. *)
@@ -109,6 +115,18 @@ Section Greedy.
     end.
   Definition okrow (r : note_row) : Prop := In r db /\ okrowb r = true.
   Definition good (sel : list note_row) : Prop := (forall r, In r sel -> okrow r) /\ NoDup (rrefs sel).
+
+  (** Transparent inputs: each came out of some gather of the call's policy; none twice. *)
+  Definition tgood (tins : list utxo_row) : Prop :=
+    (forall u, In u tins -> ton = true /\ exists t, In u (tgather t)) /\ NoDup (map u_id tins).
+
+  Lemma tgood_filter f tins : tgood tins -> tgood (filter f tins).
+  Proof.
+    intros [G1 G2]. split; [intros u Hin; apply filter_In in Hin; apply G1; exact (proj1 Hin) | apply nodup_filter_ids; exact G2].
+  Qed.
+
+  Lemma tgood_gather t : ton = true -> tgood (tgather t).
+  Proof. intros Hon. split; [intros u Hin; split; [exact Hon | exists t; exact Hin] | apply Htn]. Qed.
 
   Lemma select_one_good anchor p req excl :
     e_anchor e = Some anchor ->
@@ -192,57 +210,69 @@ Section Greedy.
 
   (** What a successfully constructed step is. *)
   Definition step_ok (s : step) : Prop :=
-    exists inputs,
-      s_inputs s = rrefs inputs /\ s_in_value s = sum_values inputs /\ s_tins s = [] /\ s_pay s = pay
+    exists inputs tins,
+      s_inputs s = rrefs inputs /\ s_tins s = map u_id tins
+      /\ s_in_value s = sum_utxos tins + sum_values inputs /\ s_pay s = pay
       /\ s_anchor s = Some step_anchor
-      /\ good inputs /\ step_balanced s = true.
+      /\ good inputs /\ tgood tins /\ step_balanced s = true.
 
-  Lemma step_from_parts_ok inputs cs fee s :
-    good inputs -> step_from_parts iw inputs step_anchor pay cs fee = Ok s ->
+  Lemma step_from_parts_ok inputs tins cs fee s :
+    good inputs -> tgood tins ->
+    step_from_parts iw inputs (map u_id tins) (sum_utxos tins) step_anchor pay cs fee = Ok s ->
     step_ok s /\ s_changes s = cs /\ s_fee s = fee.
   Proof.
-    intros G H. unfold step_from_parts in H.
+    intros G TG H. unfold step_from_parts in H.
     destruct (iw && _ && _); [discriminate|].
     destruct (_ =? _) eqn:E; [|discriminate]. inversion H; subst. clear H.
-    split; [|split; reflexivity]. exists inputs. cbn [s_inputs s_in_value s_tins s_pay s_anchor].
+    split; [|split; reflexivity]. exists inputs, tins. cbn [s_inputs s_in_value s_tins s_pay s_anchor].
     split; [reflexivity|]. split; [reflexivity|]. split; [reflexivity|]. split; [reflexivity|].
-    split; [reflexivity|]. split; [exact G|].
+    split; [reflexivity|]. split; [exact G|]. split; [exact TG|].
     unfold step_balanced, s_change. cbn [s_in_value s_pay s_changes s_fee]. lia.
   Qed.
 
-  Lemma greedy_sound fuel : forall sel prior req excl s,
-    good sel ->
-    greedy change db e acct pay prefs pol lp iw step_anchor single fuel sel prior req excl = Ok s -> step_ok s.
+  Lemma greedy_sound fuel : forall sel tins tdust ag prior req excl s,
+    good sel -> tgood tins ->
+    greedy change ton tgather db e acct pay prefs pol lp iw step_anchor single fuel sel tins tdust ag prior req excl = Ok s ->
+    step_ok s.
   Proof.
-    induction fuel as [|f IH]; intros sel prior req excl s G H; cbn in H; [discriminate|].
-    destruct (change step_anchor (trim sel (use_pools sel req prefs))) as [cs fee|req'|ids|] eqn:E.
-    - eapply step_from_parts_ok; [apply trim_good; exact G | exact H].
-    - destruct (_ <=? prior); [discriminate|]. eapply IH; [apply select_next_good | exact H].
-    - destruct (_ <=? prior); [discriminate|]. eapply IH; [apply select_next_good | exact H].
+    induction fuel as [|f IH]; intros sel tins tdust ag prior req excl s G TG H; cbn in H; [discriminate|].
+    destruct (change step_anchor (trim sel (use_pools sel req prefs)) tins) as [cs fee|req'|ids tids|] eqn:E.
+    - eapply step_from_parts_ok; [apply trim_good; exact G | exact TG | exact H].
+    - destruct (ton && (ag <? req')) eqn:Eg.
+      + dif H; [discriminate|]. eapply IH; [apply select_next_good | | exact H].
+        apply tgood_filter. apply tgood_gather. apply andb_true_iff in Eg. exact (proj1 Eg).
+      + dif H; [discriminate|]. eapply IH; [apply select_next_good | exact TG | exact H].
+    - dif H; [discriminate|]. eapply IH; [apply select_next_good | apply tgood_filter; exact TG | exact H].
     - discriminate.
   Qed.
 
-  Theorem propose_transaction_sound fuel s :
-    propose_transaction change db e acct pay prefs pol lp iw step_anchor single fuel = Ok s -> step_ok s.
+  Lemma tgood_init : tgood (if ton then tgather pay else []).
   Proof.
-    unfold propose_transaction. apply greedy_sound. split; [intros r [] | constructor].
+    destruct ton eqn:E; [|split; [intros u [] | constructor]].
+    split; [intros u Hin; split; [exact E | exists pay; exact Hin] | apply Htn].
+  Qed.
+
+  Theorem propose_transaction_sound fuel s :
+    propose_transaction change ton tgather db e acct pay prefs pol lp iw step_anchor single fuel = Ok s -> step_ok s.
+  Proof.
+    unfold propose_transaction. apply greedy_sound; [split; [intros r [] | constructor] | apply tgood_init].
   Qed.
 
   (** The change strategy returns amounts (Zatoshis): non-negative change and fee. *)
   Definition change_nonneg : Prop :=
-    forall a l cs fee, change a l = OBal cs fee -> 0 <= change_total cs /\ 0 <= fee.
+    forall a l tl cs fee, change a l tl = OBal cs fee -> 0 <= change_total cs /\ 0 <= fee.
 
-  Lemma greedy_change_nonneg fuel : forall sel prior req excl s,
+  Lemma greedy_change_nonneg fuel : forall sel tins tdust ag prior req excl s,
     change_nonneg ->
-    greedy change db e acct pay prefs pol lp iw step_anchor single fuel sel prior req excl = Ok s ->
+    greedy change ton tgather db e acct pay prefs pol lp iw step_anchor single fuel sel tins tdust ag prior req excl = Ok s ->
     0 <= s_change s /\ 0 <= s_fee s.
   Proof.
-    induction fuel as [|f IH]; intros sel prior req excl s C H; cbn in H; [discriminate|].
-    destruct (change step_anchor (trim sel (use_pools sel req prefs))) as [cs fee|req'|ids|] eqn:E.
+    induction fuel as [|f IH]; intros sel tins tdust ag prior req excl s C H; cbn in H; [discriminate|].
+    destruct (change step_anchor (trim sel (use_pools sel req prefs)) tins) as [cs fee|req'|ids tids|] eqn:E.
     - unfold step_from_parts in H. destruct (iw && _ && _); [discriminate|].
       destruct (_ =? _); [|discriminate]. inversion H; subst. unfold s_change. cbn. eapply C; exact E.
-    - destruct (_ <=? prior); [discriminate|]. eapply IH; eassumption.
-    - destruct (_ <=? prior); [discriminate|]. eapply IH; eassumption.
+    - destruct (ton && (ag <? req')); (dif H; [discriminate|]); eapply IH; eassumption.
+    - dif H; [discriminate|]. eapply IH; eassumption.
     - discriminate.
   Qed.
 
@@ -256,19 +286,22 @@ Section Greedy.
     - intros x Hx. apply filter_In in Hx. apply Hv. exact (proj1 Hx).
   Qed.
 
-  (** A request the spendable funds cannot cover never yields a proposal. *)
-  Theorem insufficient_is_error fuel s :
+  (** A request the spendable funds cannot cover never yields a proposal. [tbound] bounds what any
+      set of gathered coins is worth (see [tgood_sum_le] for the bound of the real gather). *)
+  Theorem insufficient_is_error fuel s tbound :
     change_nonneg ->
-    sum_values (filter okrowb db) < pay ->
-    propose_transaction change db e acct pay prefs pol lp iw step_anchor single fuel <> Ok s.
+    (forall tins, tgood tins -> sum_utxos tins <= tbound) ->
+    sum_values (filter okrowb db) + tbound < pay ->
+    propose_transaction change ton tgather db e acct pay prefs pol lp iw step_anchor single fuel <> Ok s.
   Proof.
-    intros C Hlt H.
-    pose proof (greedy_change_nonneg fuel [] 0 0 [] s C H) as [Hc Hf].
-    apply propose_transaction_sound in H. destruct H as [inputs [_ [Hval [_ [Hpay [_ [G Hbal]]]]]]].
-    pose proof (good_sum_le inputs G). unfold step_balanced in Hbal. lia.
+    intros C Hb Hlt H.
+    pose proof (greedy_change_nonneg fuel [] _ [] _ 0 0 [] s C H) as [Hc Hf].
+    apply propose_transaction_sound in H. destruct H as [inputs [tins [_ [_ [Hval [Hpay [_ [G [TG Hbal]]]]]]]]].
+    pose proof (good_sum_le inputs G). pose proof (Hb tins TG). unfold step_balanced in Hbal. lia.
   Qed.
 
-  (** Termination: the selected value strictly increases and is bounded by the wallet's total. *)
+  (** Termination (without a transparent spend policy): the selected value strictly increases and is
+      bounded by the wallet's total. *)
   Lemma filter_sum_le : sum_values (filter okrowb db) <= sum_values db.
   Proof.
     clear Hn. induction db as [|x t IH]; [cbn; lia|].
@@ -277,42 +310,49 @@ Section Greedy.
     destruct (okrowb x); unfold sum_values in *; cbn; lia.
   Qed.
 
-  Lemma greedy_fuel fuel : forall sel prior req excl,
+  Lemma greedy_fuel fuel : forall sel tdust ag prior req excl,
+    ton = false ->
     prior <= sum_values db ->
     sum_values db - prior < Z.of_nat fuel ->
-    greedy change db e acct pay prefs pol lp iw step_anchor single fuel sel prior req excl <> Err EOutOfFuel.
+    greedy change ton tgather db e acct pay prefs pol lp iw step_anchor single fuel sel [] tdust ag prior req excl <> Err EOutOfFuel.
   Proof.
-    induction fuel as [|f IH]; intros sel prior req excl Hp Hf; [lia|].
-    cbn. destruct (change step_anchor (trim sel (use_pools sel req prefs))) as [cs fee|req'|ids|].
+    induction fuel as [|f IH]; intros sel tdust ag prior req excl Hoff Hp Hf; [lia|].
+    cbn [greedy].
+    destruct (change step_anchor (trim sel (use_pools sel req prefs)) []) as [cs fee|req'|ids tids|].
     - unfold step_from_parts. destruct (iw && _ && _); [discriminate|]. destruct (_ =? _); discriminate.
-    - destruct (_ <=? prior) eqn:E; [discriminate|].
+    - replace (ton && (ag <? req')) with false by (rewrite Hoff; reflexivity).
+      cbn [negb]. rewrite andb_true_r. destruct (_ <=? prior) eqn:E; [discriminate|].
       pose proof (good_sum_le _ (select_next_good req' excl)). pose proof filter_sum_le.
-      apply IH; lia.
-    - destruct (_ <=? prior) eqn:E; [discriminate|].
+      apply IH; [exact Hoff | lia | lia].
+    - cbn [filter length Nat.eqb negb]. rewrite andb_true_r. destruct (_ <=? prior) eqn:E; [discriminate|].
       pose proof (good_sum_le _ (select_next_good req (excl ++ ids))). pose proof filter_sum_le.
-      apply IH; lia.
+      apply IH; [exact Hoff | lia | lia].
     - discriminate.
   Qed.
 
   Theorem greedy_terminates fuel :
+    ton = false ->
     sum_values db < Z.of_nat fuel ->
-    propose_transaction change db e acct pay prefs pol lp iw step_anchor single fuel <> Err EOutOfFuel.
+    propose_transaction change ton tgather db e acct pay prefs pol lp iw step_anchor single fuel <> Err EOutOfFuel.
   Proof.
-    intros H. unfold propose_transaction. apply greedy_fuel; [|lia].
+    intros Hoff H. unfold propose_transaction.
+    replace (if ton then tgather pay else []) with (@nil utxo_row) by (rewrite Hoff; reflexivity).
+    apply greedy_fuel; [exact Hoff | | lia].
     pose proof filter_sum_le. pose proof (good_sum_le [] ltac:(split; [intros r [] | constructor])).
     unfold sum_values in *. cbn in *. lia.
   Qed.
 
   (** More fuel never changes a result that was reached. *)
-  Lemma greedy_fuel_mono fuel : forall sel prior req excl r,
-    greedy change db e acct pay prefs pol lp iw step_anchor single fuel sel prior req excl = r -> r <> Err EOutOfFuel ->
-    greedy change db e acct pay prefs pol lp iw step_anchor single (S fuel) sel prior req excl = r.
+  Lemma greedy_fuel_mono fuel : forall sel tins tdust ag prior req excl r,
+    greedy change ton tgather db e acct pay prefs pol lp iw step_anchor single fuel sel tins tdust ag prior req excl = r ->
+    r <> Err EOutOfFuel ->
+    greedy change ton tgather db e acct pay prefs pol lp iw step_anchor single (S fuel) sel tins tdust ag prior req excl = r.
   Proof.
-    induction fuel as [|f IH]; intros sel prior req excl r H Hne; [cbn in H; congruence|].
-    cbn in H. cbn [greedy].
-    destruct (change step_anchor (trim sel (use_pools sel req prefs))) as [cs fee|req'|ids|]; try exact H.
-    - destruct (_ <=? prior); [exact H|]. apply IH; assumption.
-    - destruct (_ <=? prior); [exact H|]. apply IH; assumption.
+    induction fuel as [|f IH]; intros sel tins tdust ag prior req excl r H Hne; [cbn in H; congruence|].
+    cbn [greedy] in H. cbn [greedy].
+    destruct (change step_anchor (trim sel (use_pools sel req prefs)) tins) as [cs fee|req'|ids tids|]; try exact H.
+    - destruct (ton && (ag <? req')); (dif H; [exact H|]); apply IH; assumption.
+    - dif H; [exact H|]. apply IH; assumption.
   Qed.
 End Greedy.
 
@@ -324,13 +364,15 @@ Proof.
   split; [reflexivity | apply nodup_refs_spec; exact E].
 Qed.
 
-Lemma finish_steps db e tip lock s steps :
-  finish db e tip lock s = Ok steps -> steps = [s] /\ NoDup (concat (map s_inputs [s])).
+Lemma finish_steps db udb e tip lock s steps :
+  finish db udb e tip lock s = Ok steps -> steps = [s] /\ NoDup (concat (map s_inputs [s])).
 Proof.
   unfold finish. destruct (multi_step [s]) as [st| |] eqn:M; try discriminate.
   apply multi_step_nodup in M. destruct M as [-> Hnd]. intros H.
   split; [|exact Hnd].
-  destruct lock as [[o fb]|]; [destruct (lock_outputs _ _ _ _ _); [|discriminate]|]; inversion H; reflexivity.
+  destruct lock as [[o fb]|];
+    [destruct (lock_outputs _ _ _ _ _); [destruct (lock_utxos_ok _ _ _ _); [|discriminate]|discriminate]|];
+    inversion H; reflexivity.
 Qed.
 
 (** bucketed: a stricter policy whose anchor is a grid boundary *)
@@ -362,52 +404,63 @@ Proof.
   - pose proof (Z.div_mod ordinary interval ltac:(lia)). lia.
 Qed.
 
-(** The parameters a returned step was selected under: the caller's, or those of the canonical
-    (bucketed) attempt. *)
-Inductive step_origin (db : list note_row) (e : env) (acct pay : Z) (orchard_out : bool) (permitted : list pool)
-    (pol : policy) (lp : lip) (canon : option canon_in) (s : step) : Prop :=
+(** The parameters a returned step was selected under: the caller's (with the call's transparent
+    gather), or those of the canonical (bucketed) attempt, which spends no transparent output. *)
+Inductive step_origin (db : list note_row) (udb : list utxo_row) (e : env) (acct pay : Z) (orchard_out : bool)
+    (permitted : list pool) (pol : policy) (zc : bool) (lp : lip) (tspend : option (option (list Z)))
+    (canon : option canon_in) (s : step) : Prop :=
 | origin_ordinary anchor :
     e_anchor e = Some anchor ->
-    step_ok db e acct pay
+    step_ok (match tspend with Some _ => true | None => false end)
+      (tgather_of udb acct (e_target e) pol zc lp tspend)
+      db e acct pay
       (pool_preference (match canon with Some _ => true | None => false end) orchard_out permitted) pol lp anchor s ->
-    step_origin db e acct pay orchard_out permitted pol lp canon s
+    step_origin db udb e acct pay orchard_out permitted pol zc lp tspend canon s
 | origin_canonical ci bp :
     canon = Some ci ->
     bucketed pol (c_interval ci) (e_target e) (c_activation ci) = Some bp ->
     ssub (e_target e) (p_trusted bp) = c_boundary ci ->
     In Orchard permitted ->
-    step_ok db (Env (e_target e) (c_sel_anchor ci) (e_ranges e)) acct pay
+    step_ok false (fun _ => []) db (Env (e_target e) (c_sel_anchor ci) (e_ranges e)) acct pay
       (pool_preference true orchard_out [Orchard]) bp lp (c_boundary ci) s ->
-    step_origin db e acct pay orchard_out permitted pol lp canon s.
+    step_origin db udb e acct pay orchard_out permitted pol zc lp tspend canon s.
 
-Theorem propose_transfer_sound change fuel db e tip acct pay single_payment orchard_out permitted pol lp lock canon steps :
-  NoDup (rrefs db) -> 1 <= p_trusted pol -> p_trusted pol <= p_untrusted pol ->
-  (forall ci, canon = Some ci -> 0 < c_interval ci) ->
-  propose_transfer change fuel db e tip acct pay single_payment orchard_out permitted pol lp lock canon = Ok steps ->
-  NoDup (concat (map s_inputs steps))
-  /\ forall s, In s steps -> step_origin db e acct pay orchard_out permitted pol lp canon s.
+Lemma tgather_of_nodup udb acct target pol zc lp tspend t :
+  NoDup (map u_id udb) -> NoDup (map u_id (tgather_of udb acct target pol zc lp tspend t)).
 Proof.
-  intros Hn Ht Hu Hci H. unfold propose_transfer in H.
+  intros Hn. unfold tgather_of. destruct tspend as [allow|]; [apply select_transparent_nodup; exact Hn | constructor].
+Qed.
+
+Theorem propose_transfer_sound change fuel db udb e tip acct pay single_payment orchard_out permitted pol zc lp tspend lock canon steps :
+  NoDup (rrefs db) -> NoDup (map u_id udb) -> 1 <= p_trusted pol -> p_trusted pol <= p_untrusted pol ->
+  (forall ci, canon = Some ci -> 0 < c_interval ci) ->
+  propose_transfer change fuel db udb e tip acct pay single_payment orchard_out permitted pol zc lp tspend lock canon = Ok steps ->
+  NoDup (concat (map s_inputs steps))
+  /\ forall s, In s steps -> step_origin db udb e acct pay orchard_out permitted pol zc lp tspend canon s.
+Proof.
+  intros Hn Hnu Ht Hu Hci H. unfold propose_transfer in H.
   destruct (e_anchor e) as [anchor|] eqn:Ea; [|discriminate].
   assert (Hord : forall steps0,
-    match propose_transaction change db e acct pay
+    match propose_transaction change (match tspend with Some _ => true | None => false end)
+            (tgather_of udb acct (e_target e) pol zc lp tspend) db e acct pay
             (pool_preference (match canon with Some _ => true | None => false end) orchard_out permitted)
             pol lp (match canon with Some _ => true | None => false end) anchor false fuel with
-    | Ok s => finish db e tip lock s | Err x => Err x | Panic => Panic end = Ok steps0 ->
+    | Ok s => finish db udb e tip lock s | Err x => Err x | Panic => Panic end = Ok steps0 ->
     NoDup (concat (map s_inputs steps0))
-    /\ forall s, In s steps0 -> step_origin db e acct pay orchard_out permitted pol lp canon s).
+    /\ forall s, In s steps0 -> step_origin db udb e acct pay orchard_out permitted pol zc lp tspend canon s).
   { intros steps0 H0.
-    destruct (propose_transaction _ _ _ _ _ _ _ _ _ _ _ _) as [s| |] eqn:E; try discriminate.
+    destruct (propose_transaction _ _ _ _ _ _ _ _ _ _ _ _ _ _) as [s| |] eqn:E; try discriminate.
     apply finish_steps in H0. destruct H0 as [-> Hnd]. split; [exact Hnd|].
     intros s' [<-|[]]. eapply origin_ordinary; [exact Ea|].
-    eapply propose_transaction_sound; eassumption. }
+    eapply propose_transaction_sound; try eassumption.
+    intros t. apply tgather_of_nodup. exact Hnu. }
   destruct canon as [ci|]; [|apply Hord; exact H].
   destruct (single_payment && is_canonical_denomination pay && existsb (pool_eqb Orchard) permitted) eqn:Ec;
     [|apply Hord; exact H].
   destruct (bucketed pol (c_interval ci) (e_target e) (c_activation ci)) as [bp|] eqn:Eb; [|apply Hord; exact H].
   destruct (negb (ssub (e_target e) (p_trusted bp) =? c_boundary ci)) eqn:Ebd; [discriminate|].
   destruct (c_computable ci); [|apply Hord; exact H].
-  destruct (propose_transaction change db (Env (e_target e) (c_sel_anchor ci) (e_ranges e)) acct pay
+  destruct (propose_transaction change false (fun _ => []) db (Env (e_target e) (c_sel_anchor ci) (e_ranges e)) acct pay
               (pool_preference true orchard_out [Orchard]) bp lp true (ssub (e_target e) (p_trusted bp)) true fuel)
     as [s|x|] eqn:E.
   - destruct (is_canonical_crossing ci single_payment orchard_out s); [|apply Hord; exact H].
@@ -415,10 +468,10 @@ Proof.
     intros s' [<-|[]].
     destruct (bucketed_spec _ _ _ _ _ (Hci ci eq_refl) Ht Hu Eb) as [_ [_ [Hb1 [Hb2 _]]]].
     assert (Hbd : ssub (e_target e) (p_trusted bp) = c_boundary ci) by (apply negb_false_iff in Ebd; lia).
-    eapply (origin_canonical _ _ _ _ _ _ _ _ _ _ ci bp); try reflexivity; try assumption.
+    eapply (origin_canonical _ _ _ _ _ _ _ _ _ _ _ _ _ ci bp); try reflexivity; try assumption.
     + rewrite !andb_true_iff in Ec. destruct Ec as [_ Ec]. apply existsb_exists in Ec.
       destruct Ec as [q [Hq Eq]]. apply pool_eqb_eq in Eq. subst q. exact Hq.
-    + rewrite <- Hbd. eapply propose_transaction_sound; try eassumption.
+    + rewrite <- Hbd. eapply propose_transaction_sound; try eassumption. intros t. constructor.
   - destruct x; try discriminate. apply Hord; exact H.
   - discriminate.
 Qed.
